@@ -276,6 +276,11 @@ def check_one(sh, kind, toks, res, i, fail):
                 cooperative = False
                 if outcome != 'err' or r != len(evs) - 1:
                     fail(['C08'], i, f'callback failed in round {r} but the call answered {outcome}')
+            if fin == 'lpanic':
+                # the guards were worked on in place and then dropped by the unwinding: same net effect as above
+                cooperative = False
+                if outcome != 'upanic' or r != len(evs) - 1:
+                    fail(['C15'], i, f'callback panicked (after working on its guards) in round {r} but the call answered {outcome}')
         if outcome in ('err', 'upanic'):
             if not evs:
                 fail(['C08', 'C15'], i, f'{outcome} without a callback invocation')
